@@ -22,9 +22,15 @@ def P(theorems, projection, monitor, profiles, types, count, **kw):
     d.update(kw)
     return d
 
+# generated lemmas whose content is sequential code (plus the hook-point windows the harness can
+# inject wakes into): when the text no longer matches, the check escalates the correspondence
+# (small-scope enumeration at level 2 and more generated histories over these types) and accepts
+# the changed text if the implementation still agrees with the model on all of them
+ESCALATABLE = {"GroupLoopInst.grouploop_ok": "FU,MU,FO", "PollSkelInst.poll_skeleton_ok": ALL}
+
 PROPS = {
     "C01": P([], "C01", "C01", "races,default,big,stale,budget,groups,reuse", ALL, (1500, 40000),
-             generated_lemmas=["ProtocolInst.protocol_ok"],
+             generated_lemmas=["ProtocolInst.protocol_ok", "PollSkelInst.poll_skeleton_ok"],
              trusted_extra=["tools/build.py extract_protocol: regular expressions over wake_by_ref / push / pop (src/waker_list.rs) and poll_inner_no_remove (src/futures_unordered_bounded.rs) listing their shared-memory steps in textual order; ConcWake.v's transition system is my rendering of those steps (syntactic tie only)"],
              assumptions=["Level B (ConcWake.v): sequential consistency; DiatomicWaker::register / notify and each half of MpscQueue::enqueue are single atomic steps; try_dequeue returns Empty only if the queue is empty or its first node is not linked yet"]),
     "C02": P([], "C02", "C02", "default,stale,limits,races,budget,groups,reuse,deque,cycles", "FUB,FU,FOB,FO", (2000, 50000)),
